@@ -276,7 +276,7 @@ class Built:
                         problems.append("same-object")
                     if c.__xpm__._sealed:
                         problems.append("copy-sealed")
-                    if self._ev(c.__xpm__.values.get(op["name"])) != self._ev(self.val(op["v"])) and op["v"]["t"] not in ("ref", "out"):
+                    if c.__xpm__.values.get(op["name"]) != self.val(op["v"]) and op["v"]["t"] not in ("ref", "out"):
                         problems.append("value-not-applied")
                     if k == "clone":
                         for nm, x in c.__xpm__.values.items():
